@@ -131,6 +131,14 @@ fn storm(seed: u64, rounds: usize) -> Acc {
             let any: u32 = r.gen();
             *rnd::pick(r, &[0u32, 1, 99_999, 100_000, 100_001, 350_000, u32::MAX / 64, u32::MAX, any])
         };
+        // maximum accumulator placed around the 32-bit product rule for the group size it is paired with
+        let macc = |r: &mut R, gs: u16| -> u32 {
+            if gs == 0 || r.gen_range(0..3) != 0 {
+                return hv32(r);
+            }
+            let edge = ((1u64 << 32) / gs as u64) as i64; // smallest accumulator whose product reaches 2^32 (exactly 2^32 when gs is a power of two)
+            (edge + *rnd::pick(r, &[-2i64, -1, 0, 0, 1])).clamp(0, u32::MAX as i64) as u32
+        };
         for _ in 0..rounds {
             let wrong_auth = rnd::chance(&mut w.r, 1, 6);
             let fa = if wrong_auth { w.users[u].key } else { cfg.fee_authority };
@@ -151,13 +159,13 @@ fn storm(seed: u64, rounds: usize) -> Acc {
                 5 | 6 => {
                     let gs = *rnd::pick(&mut w.r, &[0u16, 1, 2, 3, 8, 64, 128, 65535]);
                     b::InitializeAdaptiveFeeTier { whirlpools_config: cfg.key, adaptive_fee_tier: b::pda_fee_tier(cfg.key, idx).0, funder: ADMIN, fee_authority: fa, system_program: system_program::ID }.ix(
-                        idx, sp, Pubkey::default(), Pubkey::default(), hv16(&mut w.r), hv16(&mut w.r), hv16(&mut w.r), hv16(&mut w.r), hv32(&mut w.r), hv32(&mut w.r), gs, hv16(&mut w.r),
+                        idx, sp, Pubkey::default(), Pubkey::default(), hv16(&mut w.r), hv16(&mut w.r), hv16(&mut w.r), hv16(&mut w.r), hv32(&mut w.r), macc(&mut w.r, gs), gs, hv16(&mut w.r),
                     )
                 }
                 7 => b::SetDefaultBaseFeeRate { whirlpools_config: cfg.key, adaptive_fee_tier: b::pda_fee_tier(cfg.key, idx).0, fee_authority: fa }.ix(hv16(&mut w.r)),
                 8 => {
                     let gs = *rnd::pick(&mut w.r, &[0u16, 1, 2, 3, 8, 64, 128]);
-                    b::SetPresetAdaptiveFeeConstants { whirlpools_config: cfg.key, adaptive_fee_tier: b::pda_fee_tier(cfg.key, idx).0, fee_authority: fa }.ix(hv16(&mut w.r), hv16(&mut w.r), hv16(&mut w.r), hv32(&mut w.r), hv32(&mut w.r), gs, hv16(&mut w.r))
+                    b::SetPresetAdaptiveFeeConstants { whirlpools_config: cfg.key, adaptive_fee_tier: b::pda_fee_tier(cfg.key, idx).0, fee_authority: fa }.ix(hv16(&mut w.r), hv16(&mut w.r), hv16(&mut w.r), hv32(&mut w.r), macc(&mut w.r, gs), gs, hv16(&mut w.r))
                 }
                 9 if w.pools.iter().any(|p| p.adaptive) => {
                     let ps: Vec<usize> = (0..w.pools.len()).filter(|i| w.pools[*i].adaptive).collect();
@@ -165,7 +173,7 @@ fn storm(seed: u64, rounds: usize) -> Acc {
                     let gs = *rnd::pick(&mut w.r, &[0u16, 1, 2, 3, 8, 64, 128]);
                     let o = |r: &mut R, v: u16| if r.gen() { Some(v) } else { None };
                     let (a1, a2, a3, a6, a7) = (hv16(&mut w.r), hv16(&mut w.r), hv16(&mut w.r), gs, hv16(&mut w.r));
-                    let (a4, a5) = (hv32(&mut w.r), hv32(&mut w.r));
+                    let (a4, a5) = (hv32(&mut w.r), macc(&mut w.r, gs));
                     // one in three names the oracle of another adaptive pool: its constants would be judged against the wrong spacing
                     let others: Vec<usize> = ps.iter().copied().filter(|q| *q != p).collect();
                     let oracle = if !others.is_empty() && w.r.gen_range(0..3) == 0 { w.pools[*rnd::pick(&mut w.r, &others)].oracle } else { w.pools[p].oracle };
@@ -435,6 +443,37 @@ fn lattice(seed: u64, max_subset: usize) -> Acc {
                     }
                     let rv = w.new_key();
                     runs.push(("initialize_reward_v2", b::InitializeRewardV2 { reward_authority: w.pools[rp].reward_authority, funder: ADMIN, whirlpool: w.pools[rp].key, reward_mint: mint, reward_token_badge: badge_key, reward_vault: rv, reward_token_program: TOKEN22, system_program: system_program::ID, rent: RENT_ID }.ix(0)));
+                    // ---- a history: pool created over the mint while its badge exists, badge revoked, then the pool's
+                    //      own mint offered as a reward mint: admission is judged at that moment, not remembered ----
+                    if badge == Badge::Present && mint != NATIVE_2022 {
+                        let needs_badge = freeze || effective.clone().unwrap_or_default().iter().any(|t| matches!(classify(*t), Verdict::NeedsBadge));
+                        if let Some((_, pool_ix)) = runs.iter().find(|(p, _)| p.starts_with("initialize_pool_v2")) {
+                            let (o1, mut b1) = w.simulate(&bank, pool_ix);
+                            if o1.ok() && needs_badge {
+                                // control: with the badge still in place the same call is admitted (non-vacuity of the rejection below)
+                                {
+                                    let rv = w.new_key();
+                                    let cix = b::InitializeRewardV2 { reward_authority: cfg.reward_emissions_super_authority, funder: ADMIN, whirlpool: pool_ix.key("whirlpool"), reward_mint: mint, reward_token_badge: badge_key, reward_vault: rv, reward_token_program: TOKEN22, system_program: system_program::ID, rent: RENT_ID }.ix(0);
+                                    if w.simulate(&b1, &cix).0.ok() {
+                                        acc.count("admission_reward_over_own_mint_control_accepted");
+                                    }
+                                }
+                                b1.accts.remove(&badge_key);
+                                let pool_key = pool_ix.key("whirlpool");
+                                let rv = w.new_key();
+                                let rix = b::InitializeRewardV2 { reward_authority: cfg.reward_emissions_super_authority, funder: ADMIN, whirlpool: pool_key, reward_mint: mint, reward_token_badge: badge_key, reward_vault: rv, reward_token_program: TOKEN22, system_program: system_program::ID, rent: RENT_ID }.ix(0);
+                                let (o2, _) = w.simulate(&b1, &rix);
+                                acc.count("admission_reward_over_own_mint_after_badge_revoked");
+                                if o2.ok() {
+                                    acc.violation(
+                                        "c19:unsupported_mint_admitted:initialize_reward_v2:pool_mint_after_badge_revoked".to_string(),
+                                        format!("initialize_reward_v2 admitted the pool's own mint (extensions {:?}, freeze authority {freeze}) as a reward mint after its token badge was removed", subset.iter().map(|i| EXTS[*i].1).collect::<Vec<_>>()),
+                                        json!({"extensions": subset.iter().map(|i| EXTS[*i].0).collect::<Vec<_>>(), "freeze_authority": freeze, "instruction": ix_brief(&rix)}),
+                                    );
+                                }
+                            }
+                        }
+                    }
                     for (path, ix) in runs {
                         let (o, _) = w.simulate(&bank, &ix);
                         acc.evaluations += 1;
@@ -466,7 +505,7 @@ fn lattice(seed: u64, max_subset: usize) -> Acc {
 pub fn run(tier: Tier, seed: u64) -> i32 {
     let mut rep = Report::new("C19", tier, seed);
     rep.exhaustive = true;
-    rep.rule = "(1) invariant sweep: after every successful instruction of the history workload and of a setter storm (every initialize_*/set_* of config, fee tier, adaptive tier, pool, oracle with hostile u16/u32/u128 arguments, right and wrong authorities, pools created with reversed / identical mints and out-of-bound prices, swaps that push empty pools to either price bound) every Config, FeeTier, AdaptiveFeeTier, Whirlpool and Oracle account in the bank is decoded and checked against the published bounds (independent re-statement of the adaptive-constant rules). (2) mint admission lattice, enumerated: every subset up to size N (quick 2, thorough 3) of 24 Token-2022 extension type numbers (all mint extensions, account-side and unknown numbers) x freeze authority x token badge {absent, present, of another config, of another mint, not program-owned} (+ native-2022 mint, truncated TLV), mint bytes written by the harness's own TLV writer, run through initialize_pool_v2 and initialize_pool_with_adaptive_fee with the mint in position A and B and initialize_reward_v2; whatever the statement's allow-list forbids must fail. distinct = (path, extension set, freeze, badge)".into();
+    rep.rule = "(1) invariant sweep: after every successful instruction of the history workload and of a setter storm (every initialize_*/set_* of config, fee tier, adaptive tier, pool, oracle with hostile u16/u32/u128 arguments, right and wrong authorities, pools created with reversed / identical mints and out-of-bound prices, swaps that push empty pools to either price bound) every Config, FeeTier, AdaptiveFeeTier, Whirlpool and Oracle account in the bank is decoded and checked against the published bounds (independent re-statement of the adaptive-constant rules). (2) mint admission lattice, enumerated: every subset up to size N (quick 2, thorough 3) of 24 Token-2022 extension type numbers (all mint extensions, account-side and unknown numbers) x freeze authority x token badge {absent, present, of another config, of another mint, not program-owned} (+ native-2022 mint, truncated TLV), mint bytes written by the harness's own TLV writer, run through initialize_pool_v2 and initialize_pool_with_adaptive_fee with the mint in position A and B and initialize_reward_v2; whatever the statement's allow-list forbids must fail; for badge-gated mints additionally the history pool created with the badge -> badge removed -> the pool's own mint offered to initialize_reward_v2 (must fail). distinct = (path, extension set, freeze, badge)".into();
     rep.assumptions = vec!["only rejection is judged (a supported combination that fails for another reason is counted, not flagged)".into(), "badges of other configs / mints are written directly into the badge PDA (state seeding)".into()];
     let per_shard = tier.pick(32, 800);
     let mut acc = run_histories(
@@ -487,5 +526,6 @@ pub fn run(tier: Tier, seed: u64) -> i32 {
     rep.floor("storm_pools_created", 200);
     rep.floor("admission_must_reject", 5_000);
     rep.floor("admission_supported_accepted", 300);
+    rep.floor("admission_reward_over_own_mint_control_accepted", 20);
     rep.finish()
 }
